@@ -25,7 +25,7 @@ func init() {
 			"it does not decide what the sequential code computes (C09) nor behaviour of a removal callback that re-enters the cache.",
 		Assume:  []string{"sync.Mutex/RWMutex semantics", "removal callback does not re-enter the cache", "SetDelCallBackFn-style pure setters are configuration-time (called before concurrent use)"},
 		Trusted: []string{"go/types", "go/ssa (x/tools v0.29.0)", "container/list mutator table"},
-		Run:     func(c *Ctx) { runLock(c, ruleLock); base(c, "STATE") },
+		Run:     func(c *Ctx) { runLock(c, ruleLock); base(c, "STATE", "LRU") },
 	})
 }
 
